@@ -94,7 +94,7 @@ func (r *Reader) GetValue(key []byte, readTs uint64) ([]byte, error) {
 	if write == nil {
 		return nil, utils.ErrKeyNotFound
 	}
-	if write.Kind == pb.Mutation_Delete || write.Kind == pb.Mutation_Rollback {
+	if write.Kind == pb.Mutation_Delete {
 		return nil, utils.ErrKeyNotFound
 	}
 	entry, err := r.db.GetVersionedEntry(kv.CFDefault, key, write.StartTs)
@@ -107,10 +107,15 @@ func (r *Reader) GetValue(key []byte, readTs uint64) ([]byte, error) {
 	return kv.SafeCopy(nil, entry.Value), nil
 }
 
+// getWriteForRead returns the newest put/delete record visible at readTs.
+// Rollback markers and lock-only records carry no data and are skipped.
 func (r *Reader) getWriteForRead(key []byte, readTs uint64) (*Write, uint64, error) {
 	var result *Write
 	var commitTs uint64
 	if err := r.scanWrites(key, func(w Write, ts uint64) bool {
+		if w.Kind == pb.Mutation_Rollback || w.Kind == pb.Mutation_Lock {
+			return true
+		}
 		if ts <= readTs && (result == nil || ts > commitTs) {
 			copy := w
 			result = &copy
